@@ -147,6 +147,7 @@ func runC03(c *Ctx, r *Rec) {
 		return true
 	}
 
+	checkReceiverWrites(c, r, "D1-receiver-writes-persist", cat)
 	for _, name := range sortedKeys(ms) {
 		fd := ms[name]
 		effs := effectsOf(fd)
@@ -370,6 +371,29 @@ func runC03(c *Ctx, r *Rec) {
 	}
 	r.floor("D2-identity-lookup", 1)
 
+	// ---- D1b bulk operations are folds of the single-key operations
+	for _, b := range [][2]string{{"GetValues", "GetValue"}, {"RemoveValues", "RemoveValue"}} {
+		if fd := ms[b[0]]; fd != nil {
+			bad := bulkFold(c, info, fd, b[1], true)
+			r.check(bad == "", "D1-bulk-fold", c.fdName(fd), c.pos(fd.Pos()), "applies "+b[1]+" to every requested key, in order", bad)
+		}
+	}
+	for _, nm := range []string{"MakeFromSequence", "MakeFromMap"} {
+		if fd := c.methodsOf(cls)[nm]; fd != nil {
+			bad := bulkFold(c, info, fd, "SetValue", false)
+			r.check(bad == "", "D1-bulk-fold", c.fdName(fd), c.pos(fd.Pos()), "sets every entry of the source", bad)
+		}
+	}
+	if fd := ms["GetKeys"]; fd != nil {
+		loops := loopsIn(fd.Body)
+		bad := "GetKeys is not one loop over the association list"
+		if len(loops) == 1 {
+			_, bad = coveringLoop(c, info, loops[0])
+		}
+		r.check(bad == "", "D1-bulk-fold", c.fdName(fd), c.pos(fd.Pos()), "visits every association", bad)
+	}
+	r.floor("D1-bulk-fold", 4)
+
 	// ---- D3 loops
 	for _, n := range []*types.Named{cat, cls} {
 		m := c.methodsOf(n)
@@ -377,5 +401,5 @@ func runC03(c *Ctx, r *Rec) {
 			checkLoops(c, r, "D3-loop-progress", m[name], nil)
 		}
 	}
-	r.floor("D3-loop-progress", 7)
+	r.floor("D3-loop-progress", 1)
 }
